@@ -284,6 +284,6 @@ def exec_queue(case):
 
 
 CHECKS = [
-    Check("time_algebra", exec_time, strategy=time_strategy, budget={"quick": 20000, "thorough": 1500000}),
-    Check("event_queue", exec_queue, strategy=queue_strategy, budget={"quick": 3000, "thorough": 150000}),
+    Check("time_algebra", case_timeout=60, timeout_is_violation=True, execute=exec_time, strategy=time_strategy, budget={"quick": 20000, "thorough": 1500000}),
+    Check("event_queue", case_timeout=60, timeout_is_violation=True, execute=exec_queue, strategy=queue_strategy, budget={"quick": 3000, "thorough": 150000}),
 ]
